@@ -8,7 +8,11 @@ def split_frontmatter(text: str) -> tuple[str, str]:
     rest of the document. If no frontmatter is found, returns an empty string
     and the original text.
     """
-    lines = text.splitlines()
+    # Only LF and CRLF are line ends here. `str.splitlines()` would also break lines at
+    # other Unicode separators (U+2028, U+0085, \x0b, \x0c, \x1c-\x1e, ...) and so alter them.
+    lines = text.replace("\r\n", "\n").split("\n")
+    if lines[-1] == "":
+        lines.pop()
 
     # Skip empty lines at the beginning
     start_idx = 0
